@@ -175,18 +175,19 @@ def sibling_runs(ctx):
                             fails.append(("pyc-not-zeroed", "%s: pyc header timestamp not zeroed exactly" % label, label))
                 finally:
                     t.remove()
-    # never without request
-    t = fh.Tree()
-    try:
-        t.add_file("d/m.pyc", samples.dirty_pyc())
-        t.add_file("d/m.py", b"x\n", mtime_ns=1_650_000_000_000_000_000)
-        rc, out = fh.run_cli([t.path("d")], epoch=samples.EPOCH)
-        a = open(t.path("d/m.pyc"), "rb").read()
-        n += 1
-        if a[8:12] == b"\0\0\0\0" or os.stat(t.path("d/m.py")).st_mtime_ns == 0:
-            fails.append(("ran-unrequested", "pyc-zero-mtime acted without being requested", "default handlers"))
-    finally:
-        t.remove()
+    # never without request: not by default, and not because another handler's name was asked for
+    for sel in ([], ["--handler", "pyc"], ["--handler", "ar,pyc"], ["--handler", "pyc", "-j2"], ["--handler=-ar"], ["--handler=-pyc"]):
+        t = fh.Tree()
+        try:
+            t.add_file("d/m.pyc", samples.dirty_pyc())
+            t.add_file("d/m.py", b"x\n", mtime_ns=1_650_000_000_000_000_000)
+            rc, out = fh.run_cli(sel + [t.path("d")], epoch=samples.EPOCH)
+            a = open(t.path("d/m.pyc"), "rb").read()
+            n += 1
+            if a[8:12] == b"\0\0\0\0" or os.stat(t.path("d/m.py")).st_mtime_ns == 0:
+                fails.append(("ran-unrequested", "pyc-zero-mtime acted without being requested (%s)" % (" ".join(sel) or "default handlers"), " ".join(sel) or "default handlers"))
+        finally:
+            t.remove()
     return fails, n
 
 
